@@ -42,6 +42,8 @@ pub fn floors() -> Vec<String> {
         "duplicate_label_across_break",
         "duplicate_label_across_orig",
         "label_before_break_ok",
+        "bare_number_where_a_literal_belongs",
+        "branch_spellings",
         "undefined_label_sharing_long_prefix",
         "long_labels_sharing_prefix_ok",
     ] {
@@ -491,6 +493,25 @@ const RAW_SYMBOL_CASES: &[(&str, bool, &str)] = &[
     ("a1 add r0 r0 #1\na1 .break\nhalt\n", false, "duplicate_label_across_break"),
     ("lp .break\nadd r0 r0 #1\nbr lp\nhalt\n", true, "label_before_break_ok"),
     ("Lp add r0 r0 #1\nlp .break\nadd r1 r1 #1\nbr Lp\nbr lp\n", true, "label_before_break_ok"),
+    // a number without `#` or `x` is a label: no operand of a literal-only position, whether its value would fit or not
+    ("ldr r0 r1 5\nhalt\n", false, "bare_number_where_a_literal_belongs"),
+    ("ldr r0 r1 64\nhalt\n", false, "bare_number_where_a_literal_belongs"),
+    ("str r0 r1 32\n", false, "bare_number_where_a_literal_belongs"),
+    ("trap 37\n", false, "bare_number_where_a_literal_belongs"),
+    ("trap 293\n", false, "bare_number_where_a_literal_belongs"),
+    (".orig 12288\nhalt\n", false, "bare_number_where_a_literal_belongs"),
+    (".blkw 3\nhalt\n", false, "bare_number_where_a_literal_belongs"),
+    (".fill 5\n", false, "bare_number_where_a_literal_belongs"),
+    ("add r0 r0 5\n", false, "bare_number_where_a_literal_belongs"),
+    ("and r1 r1 0\n", false, "bare_number_where_a_literal_belongs"),
+    ("br 1\nhalt\n", false, "bare_number_where_a_literal_belongs"),
+    ("jsr 3\nhalt\n", false, "bare_number_where_a_literal_belongs"),
+    ("ldr r0 r1 00\n", false, "bare_number_where_a_literal_belongs"),
+    ("1 halt\nbr 1\n", true, "digits_are_a_label"),
+    // every spelling of the unconditional branch and of the other seven, in any letter case
+    ("t brnzp t\nBRNZP t\nBrNzP #-1\nbr t\nBR #0\n", true, "branch_spellings"),
+    ("t brn t\nbrz t\nbrp t\nbrnz t\nbrnp t\nbrzp t\nBRZP t\nBRNP #1\nhalt\n", true, "branch_spellings"),
+    ("t rti\nRTI\nrets_ ret\nRET\nbr rets_\n", true, "operandless_mnemonics"),
 ];
 
 fn raw_symbol_case(i: usize, case: u64) -> CaseOut {
@@ -506,7 +527,7 @@ fn raw_symbol_case(i: usize, case: u64) -> CaseOut {
     out.nontrivial = Some(hash_bytes(text.as_bytes()));
     let detail = J::obj(vec![("source", J::s(text)), ("observed", J::s(outcome.class())), ("expected", J::s(if accept { "accept" } else { "reject" }))]);
     match (&outcome, accept) {
-        (AsmOutcome::Ok(_), false) => out.violate(format!("C04/accepted-out-of-range/{}", tag), case, "a label defined twice is accepted", detail),
+        (AsmOutcome::Ok(_), false) => out.violate(format!("C04/accepted-out-of-range/{}", tag), case, format!("a source that is to be rejected ({}) is accepted", tag.replace('_', " ")), detail),
         (AsmOutcome::Rejected(d), true) => out.violate(format!("C04/rejected-valid/{}", tag), case, format!("rejected a valid program: {}", d.message), detail),
         (AsmOutcome::Crashed { abort, .. }, _) => out.violate(format!("C04/crash/{}/{}", tag, abort.panic_file()), case, abort.short(), detail),
         _ => {
